@@ -76,9 +76,12 @@ def _inputs(case):
     return t1, t2, dict(case.get("cfg", {})), case.get("always_include_values", False)
 
 
+INPUT_MODIFIED = "an input was modified"
+
+
 def m_tuple_container(case, holds_fn=None):
     """a container that is an item of a tuple has to be edited: passes once tuples are lists"""
-    if not case.get("container_in_tuple"):
+    if not case.get("container_in_tuple") or case.get("clause") == INPUT_MODIFIED:
         return False
     t1, t2, cfg, always = _inputs(case)
     return (holds_fn or holds)(detuple(t1), detuple(t2), cfg, always)
@@ -86,7 +89,7 @@ def m_tuple_container(case, holds_fn=None):
 
 def m_alias(case, holds_fn=None):
     """numerically equal atoms of different type co-occur: passes once they are made distinct"""
-    if not case.get("alias"):
+    if not case.get("alias") or case.get("clause") == INPUT_MODIFIED:
         return False
     t1, t2, cfg, always = _inputs(case)
     return (holds_fn or holds)(dealias(t1), dealias(t2), cfg, always)
@@ -96,7 +99,7 @@ def m_unordered_conv(case, holds_fn=None):
     """a type change whose values were omitted although new_type(old_value) does not reproduce the new
     value with its types (set/frozenset -> list/tuple iteration order; nested set vs frozenset):
     passes once the values are always included"""
-    if case.get("always_include_values"):
+    if case.get("always_include_values") or case.get("clause") == INPUT_MODIFIED:
         return False
     t1, t2, cfg, always = _inputs(case)
     return (holds_fn or holds)(t1, t2, cfg, True)
@@ -154,16 +157,14 @@ def oracle(ctx, t1, t2, cfg, always, out):
         return False
     ok = True
     if not V.typed_eq(out["result"], t2):
-        case["observed"] = repr(out["result"])
-        ctx.fail(case, "t1 + Delta(DeepDiff(t1,t2)) != t2")
+        ctx.fail(dict(case, observed=repr(out["result"])), "t1 + Delta(DeepDiff(t1,t2)) != t2")
         ok = False
     elif out["errors"]:
-        case["observed"] = "%d error(s) logged while applying" % out["errors"]
-        ctx.fail(case, "applying the delta to its own t1 logged an error")
+        ctx.fail(dict(case, observed="%d error(s) logged while applying" % out["errors"]), "applying the delta to its own t1 logged an error")
         ok = False
     if not out["unmodified"]:
-        case["observed"] = "an input was modified"
-        ctx.fail(case, "DeepDiff/Delta modified an input (mutate=False)")
+        # no known finding is about modified inputs: the matchers refuse this clause (seeded C01-7)
+        ctx.fail(dict(case, observed=INPUT_MODIFIED, clause=INPUT_MODIFIED), "DeepDiff/Delta modified an input (mutate=False)")
         ok = False
     return ok
 
